@@ -338,7 +338,7 @@ def r_protocol_corpus(d):
     sels = ["/", "", "/a b", "/x\ty", "\t", "/s\t", "/s\tq\t", "/s\t+", "/s\t!", "/s\t$", "/s\t!x", "/s\tq\t+", "/s\tq\t$x", "/s\ta\tb\t+",
             "GET / HTTP/1.0", "HEAD /x HTTP/1.1", "GET  / HTTP/1.0", "GET / HTTP/1.0 x", "GET /wap/x HTTP/1.0", "POST / HTTP/1.0", "GET / http/1.0",
             "gemini://h/x", "Gemini://h/x", " gemini://h/", "h /p 0", "h /p 12", "h /p -1", "h /p x", "h  /p 0", "h /p 0 0", "h /p \u0662", "\x16/s", "h /\xe9 0",
-            "h / +0", "h /f 1_0", "my notes 2_0_2_4", "h /p -0", "h /p \t5", "h /p 5 ", "h /p 0x10", "h /p 1e3", "h /p ٣", "h /p ²"]
+            "/s\t+\t", "/s\t!\t", "/s\t$\t\t", "/s\tq\t+\t", "/s\t\t+", "/s\t\t", "/s\t+\tx", "/s\t \t+", "h / +0", "h /f 1_0", "my notes 2_0_2_4", "h /p -0", "h /p \t5", "h /p 5 ", "h /p 0x10", "h /p 1e3", "h /p ٣", "h /p ²"]
     for line in sels:
         for tls in (False, True):
             req = line + "\r\n"
@@ -1204,7 +1204,8 @@ def r_dir(d):
             # and below it (the pattern is matched against <directory selector>/<name>)
             import re as _re2
             patt = cfg.get("handlers.dir.DirHandler", "ignorepatt")
-            cand = ["lib", "bin", "etc", "dev", "lost+found", "gophermap", "robots.txt", "nohup.out", "veronica.ctl", "core", "foo~", "x.abstract", "y.ask", "keep.txt", "library", "bin2"]
+            cand = ["lib", "bin", "etc", "dev", "lost+found", "gophermap", "robots.txt", "nohup.out", "veronica.ctl", "core", "foo~", "x.abstract", "y.ask", "keep.txt", "library", "bin2",
+                    "Bin", "LIB", "ROBOTS.TXT", "Nohup.out", "Gophermap", "model.3D", "NOTES.ABSTRACT", "Lost+Found"]
             os.makedirs(os.path.join(top, "sub2"), exist_ok=True)
             for base_, dir_ in (("", top), ("/sub2", os.path.join(top, "sub2"))):
                 for f in cand:
@@ -1269,6 +1270,27 @@ def r_dir(d):
                         hb.VFS_Real.stat = real_stat
                     if not {"/a.txt", "/c.txt"} <= set(names):
                         return {"confirmed": True, "scenario": "servable entries missing when one child's stat fails", "listing": names}
+        # C10 / C07: a directory request that carries search words (selector TAB words, Gopher or Gopher+) lists the directory,
+        # and what it leaves in the cache is the directory's listing for every later reader
+        sw = os.path.join(top, "swords")
+        os.makedirs(sw, exist_ok=True)
+        for f_ in ("alpha.txt", "beta.txt", "gamma.txt"):
+            open(os.path.join(sw, f_), "w").write("x")
+        prev_ct = cfg.get("handlers.dir.DirHandler", "cachetime")
+        try:
+            cfg.set("handlers.dir.DirHandler", "cachetime", "180")
+            for first_rq in (b"/swords\tbeta\r\n", b"/swords\tgamma\t$\r\n", b"GET /swords?beta HTTP/1.0\r\n\r\n"):
+                for f_ in glob_cache(sw, os.path.join(sw, cfg.get("handlers.dir.DirHandler", "cachefile"))):
+                    os.unlink(f_)
+                hb.rootpath = None; hm.rootpath = None; hm.handlers = None
+                out1, _l = _serve(first_rq, cfg)
+                out2, _l = _serve(b"/swords\r\n", cfg)
+                for label, o_ in (("the request with search words itself", out1), ("a plain request served afterwards (from the cache the first one wrote)", out2)):
+                    if not all(n_ in o_ for n_ in (b"alpha.txt", b"beta.txt", b"gamma.txt")):
+                        return {"confirmed": True, "scenario": "directory request %r: %s does not list the whole directory" % (first_rq, label), "response": repr(o_[:300])}
+        finally:
+            cfg.set("handlers.dir.DirHandler", "cachetime", prev_ct)
+            shutil.rmtree(sw, ignore_errors=True)
         return {"confirmed": None, "note": "scenarios passed"}
     finally:
         shutil.rmtree(top, ignore_errors=True)
@@ -1447,7 +1469,8 @@ def r_gophermap(d):
                     for p in ports:
                         links.append(f + "\t" + s + "\t" + h + ("" if p is None else "\t" + p))
         links = [l for l in links if not (l.split("\t")[0].strip()[1:] == "" and (len(l.split("\t")) < 2 or l.split("\t")[1].strip() == ""))]
-        infos = ["Welcome to the server", "", "   indented text", "no tab: but a colon", "trailing blanks   ", "Caf\udce9 du coin (latin-1 bytes)", "na\u00efve (utf-8)"]
+        infos = ["Welcome to the server", "", "   indented text", "no tab: but a colon", "trailing blanks   ", "Caf\udce9 du coin (latin-1 bytes)", "na\u00efve (utf-8)",
+                 "Name              Size    Date", "  /\\_/\\   ascii   art", "two  spaces"]
         nscen = 0
         for depth, base in enumerate(["", "/docs", "/docs/deep er/x"]):
             dirp = top + base
@@ -1507,6 +1530,18 @@ def r_gophermap(d):
         nl = [x for x in out.split(b"\r\n") if x and x != b"."]
         if len(nl) != 2 or nl[0][:1] != b"i" or b"/menus.gophermap/file.txt" not in nl[1]:
             return {"confirmed": True, "scenario": "a directory named menus.gophermap holding a two-line gophermap", "response": repr(out[:300])}
+        # a gophermap of zero lines (or of one empty line) is still THE listing of its directory: no entry for the files next to it
+        for content, nwant in ((b"", 0), (b"\n", 1), (b"only text\n", 1)):
+            dn = os.path.join(top, "archive", "private")
+            os.makedirs(dn, exist_ok=True)
+            for f_ in ("a.txt", "b.txt", "c.txt"):
+                open(os.path.join(dn, f_), "w").write("x")
+            open(os.path.join(dn, "gophermap"), "wb").write(content)
+            hb.rootpath = None; hm.rootpath = None; hm.handlers = None
+            out, _l = _serve(b"/archive/private\r\n", cfg)
+            nl = [x for x in out.split(b"\r\n") if x and x != b"."]
+            if len(nl) != nwant or any(b"a.txt" in x for x in nl) or out.startswith(b"3"):
+                return {"confirmed": True, "scenario": "a directory whose gophermap is %r must be listed as that gophermap's %d line(s), not as its files" % (content, nwant), "response": repr(out[:300])}
         return {"confirmed": None, "note": "%d generated gophermaps agree with the reference reading" % nscen}
     finally:
         shutil.rmtree(top, ignore_errors=True)
@@ -1664,6 +1699,29 @@ def r_zip(d):
                 if a.replace(b"/L.zip", b"/L") != b.replace(b"/L.zip", b"/L"):
                     return {"confirmed": True, "scenario": "members stored in the order %s, selector %r: the archive and the extracted tree answer differently" % ([m[0] for m in perm], s),
                             "extracted": repr(a[:300]), "archive": repr(b[:300])}
+        # a long chain of links, every link stored before its target
+        CT = os.path.join(top, "CH")
+        os.makedirs(os.path.join(CT, "docs"))
+        open(os.path.join(CT, "real.txt"), "wb").write(b"end of the chain\n")
+        open(os.path.join(CT, "docs", "page.txt"), "wb").write(b"page\n")
+        with zipfile.ZipFile(os.path.join(top, "CH.zip"), "w") as z:
+            for i_ in range(1, 15):
+                for pre, last in (("l", "real.txt"), ("d", "docs")):
+                    dest = "%s%02d" % (pre, i_ + 1) if i_ < 14 else last
+                    zi = zipfile.ZipInfo("%s%02d" % (pre, i_))
+                    zi.external_attr = (_stat.S_IFLNK | 0o777) << 16
+                    z.writestr(zi, dest)
+                    if not os.path.lexists(os.path.join(CT, "%s%02d" % (pre, i_))):
+                        os.symlink(dest, os.path.join(CT, "%s%02d" % (pre, i_)))
+            z.writestr("real.txt", b"end of the chain\n")
+            z.writestr("docs/page.txt", b"page\n")
+        for s in ("", "/l01", "/l07", "/l14", "/d01", "/d02/page.txt", "/d14/page.txt"):
+            a, _l = serve(enc("/CH" + s) + b"\r\n")
+            b, _l = serve(enc("/CH.zip" + s) + b"\r\n")
+            n += 1
+            if a.replace(b"/CH.zip", b"/CH") != b.replace(b"/CH.zip", b"/CH"):
+                return {"confirmed": True, "scenario": "a chain of 14 links, each stored before its target, selector %r: the archive and the extracted tree answer differently" % s,
+                        "extracted": repr(a[:300]), "archive": repr(b[:300])}
         # archives without any file member: empty, and directory members only
         os.makedirs(os.path.join(top, "E"))
         os.makedirs(os.path.join(top, "D", "a", "b"))
@@ -1952,6 +2010,11 @@ def r_tal(d):
            ('<span tal:repeat="it rows2" tal:replace="it/label | nothing">x</span>|<em tal:repeat="it rows2" tal:content="it/label | default">d</em>', {"rows2": [{}, {"label": "b"}, {}]},
             ["b|<em>d</em><em>b</em><em>d</em>"], "nothing / default across repeat passes"),
            ('<a href="old" tal:attributes="href string:new; title default" title="t" tal:omit-tag="nothing">L</a>', {}, ['href="new"', 'title="t"', "</a>"], "attributes / default / omit-tag"),
+           ('<p tal:define="x string:secret; global y string:g">in</p><b tal:content="x | string:unset">z</b><i tal:content="y">w</i>'
+            '<u tal:define="global g1 string:a; l1 string:b; global g3 string:c" tal:content="l1">v</u><s tal:content="l1 | string:unset2">q</s>', {},
+            ["<b>unset</b>", "<i>g</i>", "<u>b</u>", "<s>unset2</s>"], "a local define ends with its element also when a global define follows it in the same tal:define"),
+           ('<p tal:content="string:[$nv ] - ${nv} end">x</p><b tal:content="string:$num and ${num}">y</b>', {"nv": None, "rec3": {"nv": None}, "num": 7},
+            ["<p>[ ] -  end</p>", "<b>7 and 7</b>"], "string: expressions: a $name or ${path} reference whose value is nothing contributes no text"),
            ('<ul><li tal:repeat="row rows3"><a href="/fallback" tal:attributes="href row/url | default" tal:content="row/name">x</a></li></ul>',
             {"rows3": [{"name": "one", "url": "/one"}, {"name": "two"}, {"name": "three", "url": None}, {"name": "four"}]},
             ['<a href="/one">one</a>', '<a href="/fallback">two</a>', "<a>three</a>", '<a href="/fallback">four</a>'],
@@ -1995,6 +2058,20 @@ def r_tal(d):
                 return {"confirmed": True, "scenario": "a template without TAL attributes: the explicitly empty attribute value %s must survive expansion" % needle, "template": tsrc, "output": doc}
         if 'alt="alt"' in doc or 'value="value"' in doc or 'href="href"' in doc:
             return {"confirmed": True, "scenario": "an explicitly empty attribute value was rewritten as a minimised attribute", "template": tsrc, "output": doc}
+    # ---- METAL: slot fillings end with their use-macro: a template expanded later through tal:replace="structure ..." shows its own slot defaults
+    lib0 = simpleTAL.compileHTMLTemplate('<html><div metal:define-macro="box">B[<span metal:define-slot="body">default body</span>]</div></html>')
+    inc0 = simpleTAL.compileHTMLTemplate('<section>S[<span metal:define-slot="body">default body</span>]</section>')
+    page0 = simpleTAL.compileHTMLTemplate('<html><div metal:use-macro="lib/macros/box"><span metal:fill-slot="body">filled body</span></div>'
+                                          '<p tal:replace="structure inc">x</p><p tal:replace="structure lib/macros/box">y</p></html>')
+    ctx = simpleTALES.Context()
+    ctx.addGlobal("lib", lib0)
+    ctx.addGlobal("inc", inc0)
+    out = _io.StringIO()
+    page0.expand(ctx, out)
+    doc = out.getvalue()
+    if doc.count("filled body") != 1 or doc.count("default body") != 2:
+        return {"confirmed": True, "scenario": "a use-macro with a fill-slot, then two templates with a same-named define-slot expanded through tal:replace=\"structure ...\": only the use-macro shows the filling",
+                "output": doc}
     # ---- METAL: a fill-slot belongs to the nearest enclosing use-macro
     lib = simpleTAL.compileHTMLTemplate('<html><div metal:define-macro="outer">O[<span metal:define-slot="body">obody</span>|<span metal:define-slot="foot">ofoot</span>]</div>'
                                         '<p metal:define-macro="inner">I[<i metal:define-slot="body">ibody</i>|<i metal:define-slot="foot">ifoot</i>]</p></html>')
@@ -2286,6 +2363,126 @@ for _m in ("getfspath", "open", "stat", "listdir", "isdir", "isfile", "exists"):
     REALISERS.append(("pygopherd/handlers/base.py::VFS_Real." + _m, lambda d: (_first_confirmed(r_c01_audit, r_site_crawl)(d) if d.get("kind") == "standin" else r_c01_audit(d))))
 
 
+# ------------------------------------------------------------------- whole start-up (C19 stand-in)
+def r_startup(d):
+    """initialize() on a scratch configuration with the privileged entry points, the user/group lookups and the socket bind
+    replaced by recorders: for every combination of usechroot/setuid/setgid, with the bind succeeding, failing once or
+    failing for good with EADDRINUSE, and with each privileged call failing in turn, either start-up aborts before anything
+    is given up, or the recorded order is bind, [load_cert_chain], chroot, chdir, setgroups, setregid, setreuid and nothing
+    is bound afterwards; a failing step aborts start-up."""
+    import errno, itertools, shutil, socketserver, tempfile, time as _time
+    import pygopherd.initialization as init
+    from pygopherd import logger
+    import pwd, grp
+    top = tempfile.mkdtemp(prefix="pyvc-start-", dir="/var/tmp")
+    real = {"os": {k: getattr(os, k) for k in ("chroot", "chdir", "setgroups", "setregid", "setreuid", "setpgrp") if hasattr(os, k)},
+            "bind": socketserver.TCPServer.server_bind, "getpwnam": pwd.getpwnam, "getgrnam": grp.getgrnam, "sleep": _time.sleep, "log": getattr(logger, "log", None),
+            "fork": os.fork}
+    PRIV = ("chroot", "chdir", "setgroups", "setregid", "setreuid")
+    try:
+        base = open(os.path.join(d.get("repo") or ".", "conf", "pygopherd.conf")).read() if os.path.exists(os.path.join(d.get("repo") or ".", "conf", "pygopherd.conf")) else open("conf/pygopherd.conf").read()
+        for usechroot, su, sg in itertools.product((False, True), repeat=3):
+            for bind_failures in (0, 1, 99):
+                for failing in (None,) + PRIV:
+                    if bind_failures and failing:
+                        continue
+                    if (bind_failures or failing) and (usechroot, su, sg) not in ((True, True, True), (False, True, False), (False, False, True), (False, False, False)):
+                        continue
+                    cp = configparser.ConfigParser()
+                    cp.read_string(base)
+                    cp.set("pygopherd", "root", top)
+                    cp.set("pygopherd", "port", "0")
+                    cp.set("pygopherd", "interface", "127.0.0.1")
+                    cp.set("pygopherd", "detach", "no")
+                    cp.set("pygopherd", "usechroot", "yes" if usechroot else "no")
+                    for opt, on in (("setuid", su), ("setgid", sg)):
+                        cp.remove_option("pygopherd", opt)
+                        if on:
+                            cp.set("pygopherd", opt, "gopher")
+                    cp.remove_option("pygopherd", "pidfile")
+                    conf = os.path.join(top, "t.conf")
+                    with open(conf, "w") as fh:
+                        cp.write(fh)
+                    trace = []
+                    state = {"fails": bind_failures}
+
+                    def mk(name):
+                        def f(*a):
+                            trace.append(name)
+                            if failing == name:
+                                raise PermissionError(errno.EPERM, "Operation not permitted")
+                        return f
+                    for k in PRIV:
+                        setattr(os, k, mk(k))
+                    os.setpgrp = lambda: None
+                    pwd.getpwnam = lambda n: (n, "x", 1001, 1001, "", "/", "/bin/false")
+                    grp.getgrnam = lambda n: (n, "x", 1001, [])
+                    _time.sleep = lambda s_: None
+
+                    def fake_bind(self_):
+                        if state["fails"] > 0:
+                            state["fails"] -= 1
+                            trace.append("bind-failed")
+                            raise OSError(errno.EADDRINUSE, "Address already in use")
+                        trace.append("bind")
+                        return real["bind"](self_)
+                    socketserver.TCPServer.server_bind = fake_bind
+                    logger.log = lambda m: None
+                    raised, server = None, None
+                    cwd = os.getcwd()
+                    try:
+                        server = init.initialize(conf)
+                    except BaseException as e:  # noqa
+                        raised = e
+                    finally:
+                        for k, v in real["os"].items():
+                            setattr(os, k, v)
+                        socketserver.TCPServer.server_bind = real["bind"]
+                        pwd.getpwnam, grp.getgrnam, _time.sleep = real["getpwnam"], real["getgrnam"], real["sleep"]
+                        os.chdir(cwd)
+                        if server is not None:
+                            try:
+                                server.server_close()
+                            except Exception:  # noqa
+                                pass
+                    what = "usechroot=%s setuid=%s setgid=%s, bind failing %s, %s failing" % (usechroot, su, sg, {0: "never", 1: "once", 99: "always"}[bind_failures], failing or "nothing")
+                    privs = [t for t in trace if t in PRIV]
+                    want = (["chroot", "chdir"] if usechroot else []) + (["setgroups"] if (su or sg) else []) + (["setregid"] if sg else []) + (["setreuid"] if su else [])
+                    if bind_failures:
+                        # a listening address that cannot be bound: start-up fails, and in no case is anything bound after a privilege was given up
+                        first_priv = min([trace.index(p) for p in privs] or [len(trace)])
+                        if any(t in ("bind", "bind-failed") for t in trace[first_priv:]):
+                            return {"confirmed": True, "scenario": what + ": the socket is bound after privileges were given up", "trace": trace}
+                        if raised is None and "bind" not in trace:
+                            return {"confirmed": True, "scenario": what + ": start-up succeeded without a bound socket", "trace": trace}
+                        if bind_failures == 99 and raised is None:
+                            return {"confirmed": True, "scenario": what + ": start-up did not abort", "trace": trace}
+                        continue
+                    if failing is not None and failing in want:
+                        if raised is None:
+                            return {"confirmed": True, "scenario": what + ": start-up did not abort", "trace": trace}
+                        if privs != want[:want.index(failing) + 1]:
+                            return {"confirmed": True, "scenario": what + ": privileged calls after (or out of order before) the failing step", "trace": trace, "expected": want[:want.index(failing) + 1]}
+                        continue
+                    if raised is not None:
+                        return {"confirmed": True, "scenario": what + ": start-up raised %r" % raised, "trace": trace}
+                    if privs != want or "bind" not in trace or (privs and trace.index("bind") > trace.index(privs[0])):
+                        return {"confirmed": True, "scenario": what + ": order of bind and privileged calls", "trace": trace, "expected": ["bind"] + want}
+        return {"confirmed": None, "note": "start-up order and abort-on-failure hold for 8 option combinations x {bind ok, bind busy once, bind busy for good, each privileged call failing}"}
+    finally:
+        for k, v in real["os"].items():
+            setattr(os, k, v)
+        socketserver.TCPServer.server_bind = real["bind"]
+        pwd.getpwnam, grp.getgrnam, _time.sleep, logger.log = real["getpwnam"], real["getgrnam"], real["sleep"], real["log"]
+        shutil.rmtree(top, ignore_errors=True)
+
+
+for _q3 in ("pygopherd/initialization.py::initialize", "pygopherd/initialization.py::get_server", "pygopherd/initialization.py::init_"):
+    REALISERS.append((_q3, lambda d: (r_startup(d) if d.get("kind") == "standin" else {"confirmed": None, "note": "no counter-model replay for this start-up step"})))
+_prev_is = r_init_security
+REALISERS.append(("pygopherd/initialization.py::init_security", lambda d: (_first_confirmed(r_startup)(d) if d.get("kind") == "standin" else _prev_is(d))))
+
+
 # ------------------------------------------------------------------- configured MIME tables (C04 stand-in)
 def r_mimetypes(d):
     """[pygopherd] mimetypes / encoding are what decides the advertised type: with the shipped tables and with an
@@ -2433,6 +2630,34 @@ def r_real_sockets(d):
                 if not ok(resp):
                     return {"confirmed": True, "scenario": "a %d-byte first line (%s) is not answered by the protocol its whole line selects" % (len(req.split(b"\r\n")[0]) + 2, label),
                             "response head": repr(resp[:120])}
+        # bounded time: a client that stalls in the middle of its request is answered (or dropped) once the configured timeout expires
+        cfg_t = _config({})
+        cfg_t.set("pygopherd", "root", top)
+        cfg_t.set("pygopherd", "timeout", "1")
+        server_t = ThreadingTCPServer(cfg_t, ("127.0.0.1", 0), GopherRequestHandler, context=ctx)
+        server_t.daemon_threads = True
+        server_t.handle_error = lambda request, client_address: None
+        threading.Thread(target=server_t.serve_forever, daemon=True).start()
+        try:
+            import time as _t3
+            for label, partial in (("a Gopher selector without CR LF", b"/small.txt"), ("an HTTP request without the blank line", b"GET /small.txt HTTP/1.0\r\nHost: x\r\n"),
+                                   ("a Spartan upload shorter than announced", b"localhost /small.txt 50\r\nshort")):
+                c = socket.create_connection(server_t.server_address[:2], timeout=8)
+                t0_ = _t3.time()
+                c.sendall(partial)
+                try:
+                    c.recv(65536)
+                    finished = True
+                except socket.timeout:
+                    finished = False
+                except OSError:
+                    finished = True
+                c.close()
+                if not finished:
+                    return {"confirmed": True, "scenario": "[pygopherd] timeout = 1: %s is still unanswered and the connection still open after %.0f s (accepted connections do not carry the configured timeout)" % (label, _t3.time() - t0_)}
+        finally:
+            server_t.shutdown()
+            server_t.server_close()
         # a client that resets the connection in the middle of a large document: nothing may leave the connection handler
         import struct, time as _t2
         open(os.path.join(top, "huge.bin"), "wb").write(b"\x5a" * (8 << 20))
@@ -2680,6 +2905,21 @@ def r_extstrip(d):
             got = sorted(l.split(b"\t")[0][1:].decode() for l in out.split(b"\r\n") if l and l != b".")
             if got != sorted(names):
                 return {"confirmed": True, "scenario": "extstrip = %s: menu names of Welcome.txt and pygopherd.tar.gz" % mode, "menu": got, "documented": sorted(names)}
+            # a title given by a .cap file (or a .names block) is shown as written: extension stripping is about file names only
+            capd = os.path.join(top, "capped")
+            os.makedirs(os.path.join(capd, ".cap"), exist_ok=True)
+            for n_, title in (("changes.txt", "What changed since release-1.2.txt"), ("setup.html", "How to edit index.html"), ("dump.txt.gz", "Nightly dump.txt.gz")):
+                open(os.path.join(capd, n_), "wb").write(b"x")
+                open(os.path.join(capd, ".cap", n_), "w").write("Name=%s\n" % title)
+            open(os.path.join(capd, "other.txt"), "wb").write(b"x")
+            open(os.path.join(capd, ".names"), "w").write("Name=Read me first.txt\nPath=./other.txt\n")
+            hb.rootpath = None; hm.rootpath = None; hm.handlers = None; umn.extstrip = None
+            out, _l = _serve(b"/capped\r\n", cfg)
+            got = sorted(l.split(b"\t")[0][1:].decode() for l in out.split(b"\r\n") if l and l != b".")
+            want_c = sorted(["What changed since release-1.2.txt", "How to edit index.html", "Nightly dump.txt.gz", "Read me first.txt"])
+            shutil.rmtree(capd, ignore_errors=True)
+            if got != want_c:
+                return {"confirmed": True, "scenario": "extstrip = %s: titles given by .cap files / a .names block must be shown as written" % mode, "menu": got, "documented": want_c}
         return {"confirmed": None, "note": "extension stripping as documented in all three modes"}
     finally:
         shutil.rmtree(top, ignore_errors=True)
@@ -2713,7 +2953,9 @@ def r_titles(d):
                  "unclosed2.html": "<title>first line\nsecond line\n+VIEWS:\n text/evil: <9k>\n",
                  "notitle.html": "<html><body>nothing</body></html>",
                  "charref.html": "<html><head><title>x&#13;&#10;+ABSTRACT:&#13;&#10; forged&#9;tab</title></head></html>",
-                 "fragment.html": "<p>an HTML fragment without head or title</p>" * 40}
+                 "fragment.html": "<p>an HTML fragment without head or title</p>" * 40,
+                 "longtitle.html": "<html><head><title>" + " ".join("word%d" % i for i in range(45)) + "\n+ADMIN:\n Admin: evil\n+ABSTRACT:\n forged</title></head></html>",
+                 "manylines.html": "<html><head><title>" + "\n".join("line %d" % i for i in range(70)) + "\r\n+ADMIN:\r\n Admin: evil</title></head></html>"}
         for n, c in pages.items():
             open(os.path.join(top, n), "w", newline="").write(c)
         allowed = {"+INFO", "+ADMIN", "+VIEWS"}
@@ -2777,6 +3019,7 @@ def r_links(d):
         open(os.path.join(top, "line\u2028sep.txt"), "w").write("a name with U+2028\n")
         open(os.path.join(top, "form\x0cfeed.txt"), "w").write("a name with a form feed\n")
         open(os.path.join(top, "nel\u0085name.txt"), "w").write("a name with NEL\n")
+        open(os.path.join(top, "caf\udce9 latin1.txt"), "w").write("a name that is not UTF-8\n")
         open(os.path.join(top, ".abstract"), "w").write("Directory header line one\nline two\n")
         open(os.path.join(top, "local.txt.abstract"), "w").write("About the local file\n")
         open(os.path.join(top, ".Links"), "w").write(
@@ -2785,7 +3028,7 @@ def r_links(d):
             "Name=Same name other port\nType=1\nPath=/x\nHost=localhost\nPort=7071\n")
 
         def targets(proto, out):
-            text = out.decode("utf-8", "replace")
+            text = out.decode("utf-8", "surrogateescape")
             res = {}
             if proto == "gopher":
                 for l in text.split("\r\n"):
@@ -2793,7 +3036,7 @@ def r_links(d):
                     if len(f) >= 4 and f[0][:1] != "i":
                         name, sel, host, port = f[0][1:], f[1], f[2], f[3]
                         m = _re.match("(/|)URL:(.+)$", sel)
-                        res[name] = m.group(2) if m else "gopher://%s:%s/%s" % (host, port, urllib.parse.quote(f[0][0] + sel))
+                        res[name] = m.group(2) if m else "gopher://%s:%s/%s" % (host, port, urllib.parse.quote(f[0][0] + sel, errors="surrogateescape"))
             elif proto in ("http", "wap"):
                 for m in _re.finditer(r'(?is)<a [^>]*href="([^"]*)"[^>]*>(.*?)</a>', text):
                     import html as _h
@@ -2826,7 +3069,7 @@ def r_links(d):
             seen[proto] = {k: canon(proto, v, "64777") for k, v in targets(proto, out).items()}
         ref = seen["gopher"]
         # every protocol's link to a local file, followed in that protocol, delivers the file (names with literal %XX included)
-        for fname in ("local.txt", "release%20notes.txt", "50%25 off.txt", "a+b=c (1).txt", "g++ notes;v2.txt", "line\u2028sep.txt", "form\x0cfeed.txt", "nel\u0085name.txt"):
+        for fname in ("local.txt", "release%20notes.txt", "50%25 off.txt", "a+b=c (1).txt", "g++ notes;v2.txt", "line\u2028sep.txt", "form\x0cfeed.txt", "nel\u0085name.txt", "caf\udce9 latin1.txt"):
             content = open(os.path.join(top, fname), "rb").read()
             # the Gopher family: the selector advertised for the file (split on TAB / CR LF only), sent back byte for byte
             for gp_label, gp_rq in (("gopher", b"/\r\n"), ("gopher+", b"/\t+\r\n")):
@@ -2847,7 +3090,7 @@ def r_links(d):
                 raw = None
                 out, _l = _serve(reqs[proto][0], cfg, tls=reqs[proto][1])
                 for k_, v_ in targets(proto, out).items():
-                    if k_ == fname:
+                    if k_ == fname or (raw is None and urllib.parse.unquote(v_, errors="surrogateescape") == "/" + fname):
                         raw = v_
                 if raw is None or not raw.startswith("/"):
                     return {"confirmed": True, "scenario": "the local file %r is not advertised as a local link in the %s listing" % (fname, proto), "target": raw}
@@ -2862,6 +3105,28 @@ def r_links(d):
                     body = body.partition(b"\r\n")[2]
                 if body != content:
                     return {"confirmed": True, "scenario": "following the %s link %r advertised for the file %r does not deliver the file" % (proto, raw, fname), "response": repr(body[:120])}
+        # WAP: every entry of a long menu (more entries than WML access keys) keeps its link target
+        wap_t = seen["wap"]
+        for fname in ("local.txt", "release%20notes.txt", "a+b=c (1).txt", "g++ notes;v2.txt", "50%25 off.txt"):
+            if not wap_t.get(fname):
+                return {"confirmed": True, "scenario": "the WAP card of a directory with %d entries has no link target for %r" % (len(ref), fname), "wap targets": {k: v for k, v in list(wap_t.items())[:20]}}
+        # WAP: selectors that contain the WAP prefix themselves ('/wap' below the top level) round-trip
+        os.makedirs(os.path.join(top, "phones", "wap"))
+        open(os.path.join(top, "phones", "wap-howto.txt"), "w").write("howto\n")
+        open(os.path.join(top, "phones", "wap", "intro.txt"), "w").write("intro\n")
+        try:
+            out, _l = _serve(b"GET /wap/phones HTTP/1.0\r\n\r\n", cfg)
+            t1 = targets("wap", out)
+            if "wap-howto.txt" not in t1 or "wap" not in t1:
+                return {"confirmed": True, "scenario": "the WAP listing of /phones does not link wap-howto.txt and the directory wap", "targets": t1}
+            doc, _l = _serve(b"GET " + t1["wap-howto.txt"].encode() + b" HTTP/1.0\r\n\r\n", cfg)
+            if b"howto" not in doc or b" 200 " not in doc.split(b"\r\n")[0] + b" ":
+                return {"confirmed": True, "scenario": "following the WAP link %r of /phones/wap-howto.txt does not deliver the document" % t1["wap-howto.txt"], "response": repr(doc[:160])}
+            sub, _l = _serve(b"GET " + t1["wap"].encode() + b" HTTP/1.0\r\n\r\n", cfg)
+            if "intro.txt" not in targets("wap", sub):
+                return {"confirmed": True, "scenario": "following the WAP link %r of the directory /phones/wap does not list its file intro.txt" % t1["wap"], "response": repr(sub[-300:])}
+        finally:
+            shutil.rmtree(os.path.join(top, "phones"), ignore_errors=True)
         for name in ("Web", "Mail", "News", "Remote", "Finger", "Same name other port"):
             vals = {proto: seen[proto].get(name) for proto in seen}
             want = ref.get(name)
@@ -2903,8 +3168,13 @@ for _q in ("pygopherd/protocols/http.py::HTTPProtocol.renderobjinfo", "pygopherd
     REALISERS.append((_q, r_links))
 _prev_gri = find("pygopherd/protocols/rfc1436.py::GopherProtocol.renderobjinfo")
 REALISERS.append(("pygopherd/protocols/rfc1436.py::GopherProtocol.renderobjinfo", lambda d: (_first_confirmed(r_links, _prev_gri)(d) if d.get("kind") == "standin" else _prev_gri(d))))
+for _q2 in ("pygopherd/protocols/spartan.py::SpartanProtocol.handle", "pygopherd/protocols/gemini.py::GeminiProtocol.handle", "pygopherd/protocols/wap.py::WAPProtocol.canhandlerequest"):
+    _prev_h = find(_q2)
+    REALISERS.append((_q2, (lambda prev: (lambda d: (_first_confirmed(r_links, prev)(d) if d.get("kind") == "standin" else prev(d))))(_prev_h)))
 _prev_wd = find("pygopherd/protocols/base.py::BaseGopherProtocol.writedir")
 REALISERS.append(("pygopherd/protocols/base.py::BaseGopherProtocol.writedir", lambda d: (_first_confirmed(r_links, _prev_wd)(d) if d.get("kind") == "standin" else _prev_wd(d))))
 
 
 REALISERS.append(("pygopherd/server.py::GopherRequestHandler.", lambda d: (r_real_sockets(d) if d.get("kind") == "standin" else {"confirmed": None, "note": "no counter-model replay for the connection handler"})))
+REALISERS.append(("pygopherd/server.py::BaseServer.server_bind", lambda d: (r_real_sockets(d) if d.get("kind") == "standin" else {"confirmed": None, "note": "no counter-model replay for the listener set-up"})))
+REALISERS.append(("pygopherd/server.py::BaseServer.__init__", lambda d: (r_real_sockets(d) if d.get("kind") == "standin" else {"confirmed": None, "note": "no counter-model replay for the listener set-up"})))
